@@ -82,8 +82,8 @@ theorem valid_denote (hP : P.Lawful) (d : Desc) (hd : d.wf = true) (v : PyVal P)
   | member c m x => cases kind <;> simp_all [valid, denote]
   | naive n =>
     cases kind <;> simp_all [valid, denote]
-    cases ht : P.localize n <;> simp_all [valid, denote, hP.trunc_idem]
-  | aware t => cases kind <;> simp_all [valid, denote, hP.trunc_idem]
+    cases ht : P.localize n <;> simp_all [valid, denote, hP.trunc_idem, hP.trunc_ok]
+  | aware t => cases kind <;> simp_all [valid, denote, hP.trunc_idem, hP.trunc_ok]
   | selector r => cases kind <;> simp_all [valid, denote]
   | other => cases kind <;> simp_all [valid]
 
